@@ -464,3 +464,32 @@ M('c09-parse-etags-strip-after-blank-check', 'C09', 'R16', 'falcon/request_helpe
     if etag_str[0] == '*' and len(etag_str) == 1:
         return ['*']
 """)
+
+# R17 content_length refuses exactly the negative values (sa-am01758, sa-am01873)
+M('c09-content-length-zero-refused-lt1', 'C09', 'R17', 'falcon/request.py',
+  "        if value_as_int < 0:\n            msg = 'The value of the header must be a positive number.'",
+  "        if value_as_int < 1:\n            msg = 'The value of the header must be a positive number.'", also=('C06',))
+M('c09-content-length-zero-refused-le0', 'C09', 'R17', 'falcon/request.py',
+  "        if value_as_int < 0:\n            msg = 'The value of the header must be a positive number.'",
+  "        if value_as_int <= 0:\n            msg = 'The value of the header must be a positive number.'", also=('C06',))
+M('c09-asgi-content-length-zero-refused', 'C09', 'R17', 'falcon/asgi/request.py',
+  "        if value_as_int < 0:\n", "        if not value_as_int > 0:\n", also=('C06',))
+M('c09-asgi-content-length-minus-one-accepted', 'C09', 'R17', 'falcon/asgi/request.py',
+  "        if value_as_int < 0:\n", "        if value_as_int < -1:\n", also=('C06',))
+M('c09-content-length-large-refused', 'C09', 'R17', 'falcon/request.py',
+  "        if value_as_int < 0:\n            msg = 'The value of the header must be a positive number.'",
+  "        if value_as_int < 0 or value_as_int > 2147483647:\n            msg = 'The value of the header must be a positive number.'", also=('C06',))
+# negative controls (exit 0): `0 > value_as_int`; `not value_as_int >= 0`; `value_as_int <= -1`; the raise moved into an else of `if v >= 0: return v`
+
+# R18 the hoisted unquoting guard covers every quoted cookie value (sa-am02096)
+CQ = "        if len(value) > 2 and value[0] == '\"' and value[-1] == '\"':\n"
+M('c09-cookie-one-char-quoted-value-kept-quoted', 'C09', 'R18', 'falcon/request_helpers.py', CQ,
+  "        if len(value) > 3 and value[0] == '\"' and value[-1] == '\"':\n", also=('C15',))
+M('c09-cookie-short-quoted-values-kept-quoted', 'C09', 'R18', 'falcon/request_helpers.py', CQ,
+  "        if len(value) >= 8 and value[0] == '\"' and value[-1] == '\"':\n", also=('C15',))
+M('c09-cookie-unquote-only-even-lengths', 'C09', 'R18', 'falcon/request_helpers.py', CQ,
+  "        if len(value) > 2 and len(value) != 3 and value[0] == '\"' and value[-1] == '\"':\n", also=('C15',))
+M('c09-cookie-unquote-needs-unquoted-end', 'C09', 'R18', 'falcon/request_helpers.py', CQ,
+  "        if len(value) > 2 and value[0] == '\"' and value[-1] != '\"':\n", also=('C15',))
+# negative controls (exit 0): `len(value) >= 3`; `2 < len(value)`; startswith/endswith; `value[:1] == '"'`; `len(value) > 1` (covers `""` too);
+# the guard dropped altogether (unconditional _unquote)
